@@ -8,6 +8,7 @@ import (
 	"bytes"
 	"context"
 	"fmt"
+	"regexp"
 	"strings"
 
 	pipeline "github.com/buildkite/go-pipeline"
@@ -21,6 +22,9 @@ import (
 )
 
 func init() { checks["C14"] = runC14 }
+
+// c14ShortSourceRE: name or org/name, then an optional #ref (the ref may contain anything but '#').
+var c14ShortSourceRE = regexp.MustCompile(`^([A-Za-z0-9_-]+/)?([A-Za-z0-9_-]+)((?:#[^#]*)?)$`)
 
 type stepSource struct {
 	src []byte
@@ -190,6 +194,28 @@ func runC14(c *ctx) error {
 				}
 			}
 			collide("canonical plugin source spelling / empty config as null", s2, copyEnv(penv))
+		}
+		if s2 := ss.fresh(); s2 != nil {
+			// the documented expansion of the two short forms, written out here (not taken from the library):
+			// name#ref -> github.com/buildkite-plugins/name-buildkite-plugin#ref, org/name#ref -> github.com/org/name-buildkite-plugin#ref
+			changed := false
+			for _, pl := range s2.Plugins {
+				if m := c14ShortSourceRE.FindStringSubmatch(pl.Source); m != nil {
+					org := "buildkite-plugins"
+					if m[1] != "" {
+						org = strings.TrimSuffix(m[1], "/")
+					}
+					ref := m[3]
+					if ref == "#" {
+						ref = "" // an empty ref is no ref
+					}
+					pl.Source = "github.com/" + org + "/" + m[2] + "-buildkite-plugin" + ref
+					changed = true
+				}
+			}
+			if changed {
+				collide("the documented expansion of a short plugin source (whatever its ref looks like)", s2, copyEnv(penv))
+			}
 		}
 		// ---- must not collide ----
 		differ := func(what string, st2 *pipeline.CommandStep, repo2 string, penv2 map[string]string) {
